@@ -15,6 +15,7 @@ import (
 
 	"github.com/BondMachineHQ/BondMachine/pkg/bondmachine"
 	"github.com/BondMachineHQ/BondMachine/pkg/procbuilder"
+	"github.com/BondMachineHQ/BondMachine/pkg/simbox"
 )
 
 type Proc struct {
@@ -166,14 +167,28 @@ func (h *HDL) Tick() error { return h.Sim.Posedge(h.Clk) }
 // ---- simulator side --------------------------------------------------------------------------
 
 type SIM struct {
-	VM   *bondmachine.VM
-	bm   *bondmachine.Bondmachine
-	live bool
+	VM     *bondmachine.VM
+	bm     *bondmachine.Bondmachine
+	live   bool
+	delays map[string]int32
 }
 
 // NewSIM creates a VM; launch=true starts the per-processor workers (needed to Step it).
 func NewSIM(b *bondmachine.Bondmachine, launch bool) (*SIM, error) {
+	return NewSIMDelays(b, launch, nil)
+}
+
+// NewSIMDelays is NewSIM with a fixed simulated delay (in ticks) per opcode name: each delay is a
+// single-valued distribution, so the run stays deterministic.
+func NewSIMDelays(b *bondmachine.Bondmachine, launch bool, delays map[string]int32) (*SIM, error) {
 	vm := &bondmachine.VM{Bmach: b}
+	if len(delays) > 0 {
+		sd := simbox.NewSimDelays()
+		for op, d := range delays {
+			sd.OpcodeDelays[op] = simbox.DelayDistribution{d: 1.0}
+		}
+		vm.SimDelayMap = sd
+	}
 	if err := vm.Init(); err != nil {
 		return nil, err
 	}
@@ -182,12 +197,13 @@ func NewSIM(b *bondmachine.Bondmachine, launch bool) (*SIM, error) {
 			return nil, err
 		}
 	}
-	return &SIM{VM: vm, bm: b, live: launch}, nil
+	return &SIM{VM: vm, bm: b, live: launch, delays: delays}, nil
 }
 
 // Snapshot copies the state into a fresh, never-launched twin VM (no goroutines are created).
 func (s *SIM) Snapshot() *bondmachine.VM {
 	tw := &bondmachine.VM{Bmach: s.bm}
+	tw.SimDelayMap = s.VM.SimDelayMap
 	tw.Init()
 	tw.CopyState(s.VM)
 	for i, p := range s.VM.Processors { // fields CopyState leaves out
